@@ -39,6 +39,18 @@ CHECKS = {
         "oracle": "validity predicates on KMeans output + determinism by re-execution + T vs T+1 convergence => nearest-centroid; twin-index query agreement; float16 within |x|/2048, int8 within absMax/254 (+8 ulp), float32 exact; untrained int8 refuses",
         "assumptions": ["float16 normal range inputs for the half-precision clause", "values within +-absMax for int8"],
     },
+    "C13": {
+        "test": "TestVerif_C13",
+        "level": "exploration",
+        "technique": "property-based testing (rapid): generated train/add/remove/flush/search histories; full probe vs brute-force k-NN model, partial probe vs exact top-k of the p nearest clusters with tie enumeration",
+        "level_text": "Generated-input search against a reference model: at full probe every search is compared with exact float64 k-NN; at partial probe with the exact top-k of the live vectors stored in the p clusters whose centroids are nearest (all legal resolutions of a centroid tie at the boundary enumerated); plus rank-wise monotonicity in p, the assignment invariant after every Add, and errors before training. Sampling, not exhaustive.",
+        "level_note": "Centroids and list membership are read through one accessor file; centroid ranking uses the index's own Distance (checked by C18) so that the tie structure is the implementation's; vector distances are independent float64.",
+        "quick": {"checks": 2000, "shards": 1, "timeout": 900},
+        "thorough": {"checks": 12000, "shards": 16, "timeout": 3000},
+        "rule": "rapid-generated (dim, metric, nlist, training set incl. duplicates/collinear, history, searches with nprobes in [-2,nlist+2]); non-trivial = partial-probe search with >= 2 non-empty clusters where a live vector outside the probed clusters would have entered the exact top-k; distinct by FNV-64 of the case JSON",
+        "oracle": "C01 model at full probe; exact top-k over probed clusters (<= 64 tie resolutions, else validity only) at partial probe; monotone in p; assignment = exactly one list whose centroid is a nearest one; Add/search before Train and Train with < nlist vectors must fail",
+        "assumptions": ["distinct non-zero ids", "float32 tolerance model of DESIGN 3.2"],
+    },
     "C18": {
         "test": "TestVerif_C18",
         "level": "exploration",
